@@ -242,6 +242,9 @@ pub enum Op {
     /// a WHOAREYOU for the sel-th request node `node` has in flight, echoing that request's current
     /// nonce and coming from the address the request went to (whoever sends it)
     WhoAreYouForInflight { node: u8, sel: u16, handshaken_only: bool },
+    /// node's application answers a held FINDNODE with ONE NODES packet that announces a total of 40
+    /// (and nothing more follows)
+    RespondHugeTotal { node: u8, sel: u16 },
 }
 
 #[derive(Clone, Copy, Debug, PartialEq, Eq, Hash, Serialize, Deserialize)]
